@@ -93,8 +93,12 @@ Definition apply_control (ch : Z) (c : ctx) : ctx :=
 (* peek_next: 0x8F beyond the end *)
 Definition peek (rest : list Z) : Z := match rest with [] => 143 | n :: _ => n end.
 
-(* the `while True` loop of to_model; `prev` is peek_prev (0x8F at position 0) *)
-Fixpoint tf_loop (dec : list Z -> text) (teletext : bool) (prev : Z) (bs : list Z) (c : ctx) : list leaf :=
+(* bytes.partition(b'\x8f')[0]: everything before the first 0x8F (used by to_model and by datafile.process_tti_block) *)
+Fixpoint before_8f (bs : list Z) : list Z :=
+  match bs with [] => [] | b :: r => if b =? 143 then [] else b :: before_8f r end.
+
+(* the `while True` loop of to_model; `prev` is peek_prev (0x8F at position 0); `dh` is is_double_height *)
+Fixpoint tf_loop (dec : list Z -> text) (teletext dh : bool) (prev : Z) (bs : list Z) (c : ctx) : list leaf :=
   match bs with
   | [] => fst (end_span dec c)                                  (* cur() = 0x8F beyond the end: break; end_span *)
   | ch :: rest =>
@@ -102,21 +106,22 @@ Fixpoint tf_loop (dec : list Z -> text) (teletext : bool) (prev : Z) (bs : list 
       if is_unused_space_code ch then fst (end_span dec c)
       else if is_character_code ch then
         if is_printable_code ch || (is_printable_code nxt && is_printable_code prev)
-        then tf_loop dec teletext ch rest (append_character c ch)
-        else tf_loop dec teletext ch rest c
+        then tf_loop dec teletext dh ch rest (append_character c ch)
+        else tf_loop dec teletext dh ch rest c
       else if is_newline_code ch then
-        if negb (is_newline_code nxt) && negb (is_unused_space_code nxt) then
+        if negb (dh && is_newline_code nxt) && negb (is_unused_space_code nxt) then
           let (out, c1) := end_span dec c in
-          out ++ LBr :: tf_loop dec teletext ch rest (if teletext then reset_styles teletext c1 else c1)
-        else tf_loop dec teletext ch rest c
+          out ++ LBr :: tf_loop dec teletext dh ch rest (if teletext then reset_styles teletext c1 else c1)
+        else tf_loop dec teletext dh ch rest c
       else if is_control_code ch then
         let (out, c1) := end_span dec c in
         let c2 := apply_control ch c1 in
-        out ++ tf_loop dec teletext ch rest
+        out ++ tf_loop dec teletext dh ch rest
                  (if is_printable_code nxt && is_printable_code prev then append_character c2 32 else c2)
-      else tf_loop dec teletext ch rest c
+      else tf_loop dec teletext dh ch rest c
   end.
 
-(* tf.to_model(element, is_teletext, cct, tf): the children appended to `element` *)
+(* tf.to_model(element, is_teletext, cct, tf): the children appended to `element`;
+   is_double_height = has_double_height_char(tti_tf.partition(b'\x8f')[0]) *)
 Definition tf_model (dec : list Z -> text) (teletext : bool) (bs : list Z) : list leaf :=
-  tf_loop dec teletext 143 bs (ctx_init teletext).
+  tf_loop dec teletext (has_double_height_char (before_8f bs)) 143 bs (ctx_init teletext).
